@@ -95,7 +95,7 @@ impl Loop {
 
     fn next_step(&mut self, exe: &Arc<Mutex<Box<dyn CommandExecutor>>>, buf: &mut Buffer, caret: &mut Caret) -> Option<EngineResult<CallbackAction>> {
         let is_running = if self.from < self.to { self.i < self.to } else { self.i > self.to };
-        if !is_running {
+        if !is_running || self.parameters.is_empty() {
             return None;
         }
         let cur_parameter = ((self.i - self.from) as usize) % self.parameters.len();
